@@ -20,7 +20,7 @@
    This file contains nothing but the property theorems, each closed by [exact <lemma>]. *)
 From Coq Require Import ZArith List Bool.
 From Tickit Require Import RectDefs RBDefs RBSpec RBAbsLemmas RBInv RBProofs Gen_Linechars RBGlyphs RBGlyphProofs
-                           RBFlushDefs RBFlushSpec RBFlushProofs RBProps RBWidth RBFlushCols RBFlushReach RBTermSim RBFlushShown RBFlushGrid RBFlushFull RBCopySpec RBCopyContent.
+                           RBFlushDefs RBFlushSpec RBFlushProofs RBProps RBWidth RBFlushCols RBFlushReach RBTermSim RBFlushShown RBFlushGrid RBFlushFull RBFlushPayload RBCopySpec RBCopyContent.
 Import ListNotations.
 Local Open Scope Z_scope.
 
@@ -232,7 +232,7 @@ Print Assumptions C04_flush_overlay.
    the start of the grapheme covering the cell's string column, b = its end, w = its width, the
    cell shows the whole grapheme if w = 1; for a double-width grapheme its first column shows the
    grapheme or a blank, its second column nothing or a blank (a blank exactly when the other half
-   lies outside the span). *)
+   lies outside the span; the grapheme itself only when it lies wholly inside the span). *)
 Theorem C04_text_cell : forall p s offs n d j,
   text_valid s = true -> 0 <= offs -> 1 <= n -> offs + n <= text_width s -> 0 <= j < n ->
   let col := offs + j in
@@ -243,8 +243,8 @@ Theorem C04_text_cell : forall p s offs n d j,
   let w := sp_col b - c0 in
   c0 <= col < c0 + w /\
   (w = 1 -> T = slice s a b) /\
-  (w <> 1 -> col = c0 -> T = slice s a b \/ T = [32]) /\
-  (w <> 1 -> col <> c0 -> T = [] \/ T = [32]).
+  (w <> 1 -> col = c0 -> (T = slice s a b /\ offs <= c0 /\ c0 + w <= offs + n) \/ T = [32]) /\
+  (w <> 1 -> col <> c0 -> (T = [] /\ offs <= c0 /\ c0 + w <= offs + n) \/ T = [32]).
 Proof. exact text_cell_ok. Qed.
 Print Assumptions C04_text_cell.
 
@@ -274,6 +274,26 @@ Theorem C04_flush_full_reachable : forall L C prog s v t0,
     grid_meets (ag (fst (arun (a_new L C) prog))) (tg t0) (tg t1) = true.
 Proof. exact flush_full_reachable. Qed.
 Print Assumptions C04_flush_full_reachable.
+
+(* The byte-stream side (a terminal driven through the xterm driver): the printable text a flush
+   sends -- the code points of all its prints, in order (prints_of) -- is the sequence of the
+   expected cell texts of the buffer in row-major order: every visible grapheme once, nothing
+   for Skip and Erase cells (Erase goes out as ECH), a blank or nothing for a half-visible
+   double-width character.  In particular the hidden part of a string is never sent.
+   payload_checkb is the checker the oracle evaluates on the bytes the C sent through the xterm
+   driver (`flx`). *)
+Theorem C04_flush_payload : forall s ops s',
+  Inv s -> acells_ok (abs_rb s) -> flush s = Ok (ops, s') ->
+  payload_checkb (abs_rb s) (prints_of ops) = true.
+Proof. exact flush_payload. Qed.
+Print Assumptions C04_flush_payload.
+
+Theorem C04_flush_payload_reachable : forall L C prog s v,
+  0 <= L -> 0 <= C -> Forall op_ok prog -> run (rb_new L C) prog = Ok (s, v) ->
+  exists ops, flush s = Ok (ops, reset s) /\
+    payload_checkb (fst (arun (a_new L C) prog)) (prints_of ops) = true.
+Proof. exact flush_payload_reachable. Qed.
+Print Assumptions C04_flush_payload_reachable.
 
 Example C04_nonvacuous :
   exists s v ops, run (rb_new 1 6) [OTextAt 0 0 [0xff21; 98; 99]; OCharAt 0 0 120; OHLine 0 4 5 2 3] = Ok (s, v) /\
